@@ -97,7 +97,7 @@ def cases(tier, seed):
                 d = dict(c)
                 d["semiring"] = s
                 out.append(d)
-        for i_, c in enumerate(_ops.random_pipes(seed, 100, "multiply")):
+        for i_, c in enumerate(_ops.random_pipes(1, 100, "multiply")):
             d = dict(c)
             ss_ = ["sum-product", "lse-sum", "complex-lse-sum"]
             d["semiring"] = ss_[i_ % len(ss_)]
